@@ -344,6 +344,13 @@ def a8(ctx, rid):
     c04.t7(ctx, rid)
 
 
+def a9(ctx, rid):
+    """the record count of a reopened blob comes from its index file only when that file passed the gate (C03.I2 instances:
+    blob size by equality etc.)"""
+    import props.c03 as c03
+    c03.i2(ctx, rid)
+
+
 RULES = [
     Rule('C15.A1', 'every header insertion is counted exactly once; the loader seeds the count from the index file, not from the key map', a1, 5),
     Rule('C15.A2', 'public accessors of the closed-blob vector agree that empty slots are absent', a2, 4),
@@ -352,5 +359,6 @@ RULES = [
     Rule('C15.A5', 'the gauges named by the property read the closed list and the active slot under one storage guard (one acquisition per call)', a5, 5),
     Rule('C15.A7', 'a blob moved out of the active slot or the closed list is handed back on every non-error exit (never dropped from the accounting)', a7, 4),
     Rule('C15.A8', 'an assignment into the active slot never overwrites a live blob (C04.T7 instances)', a8, 4),
+    Rule('C15.A9', 'a count is taken from an index file only after the full validation gate (C03.I2 instances)', a9, 2),
     Rule('C15.A6', 'next_blob_id is fed by the ids of opened, failed and quarantined blobs (C07.H6/H6d instances)', a6, 4),
 ]
